@@ -5,6 +5,7 @@ package vm
 import (
 	"unsafe"
 
+	"github.com/elk-language/elk/bytecode"
 	"github.com/elk-language/elk/value"
 )
 
@@ -263,4 +264,45 @@ func VX_C13_shared_after_close() {
 	a.Set(value.SmallInt(w).ToValue())
 	g := b.Get()
 	vxAssert(g.IsSmallInt() && int64(g.AsSmallInt()) == w, "shared/write-by-one-closure-is-read-by-the-other-after-close")
+}
+
+// ---------- a reallocation in the middle of an instruction that re-enters the run loop
+
+// for .. in over a user-defined iterator: NEXT calls the iterator's bytecode `next`, whose body
+// makes a further bytecode call that crosses the 70% fill mark and reallocates the value stack.
+// The result of `next` must replace the iterator on top of the (new) stack.
+func VX_C10_next_across_growth() {
+	MAX_VALUE_STACK_SIZE = 1 << 20
+	x := vxInt64("x")
+	helper := &BytecodeFunction{Instructions: []byte{byte(bytecode.GET_LOCAL_1), byte(bytecode.RETURN)}, parameterCount: 1}
+	nextFn := &BytecodeFunction{
+		Instructions: []byte{byte(bytecode.SELF), byte(bytecode.LOAD_VALUE_1), byte(bytecode.CALL_METHOD_BC8), 0, byte(bytecode.RETURN)},
+		Values:       []value.Value{value.Ref(NewBytecodeCallSiteInfo(helper, 1, false)), value.SmallInt(x).ToValue()},
+	}
+	class := value.NewClass()
+	iter := value.NewObject(value.ObjectWithClass(class))
+	site := &CallSiteInfo{Name: value.ToSymbol("next"), ArgumentCount: 0}
+	site.Cache[0] = CallCacheEntry{Class: class, Method: nextFn}
+	fn := &BytecodeFunction{
+		Instructions: []byte{byte(bytecode.GET_LOCAL_1), byte(bytecode.NEXT8), 0, byte(bytecode.RETURN)},
+		Values:       []value.Value{value.Ref(site)},
+		parameterCount: 1,
+	}
+	slots := 7 + vxSplit("slots", 3) // 7: the nested call reallocates; 9: it does not
+	vm := vxThread(slots)
+	vm.callFrames = make([]CallFrame, 6)
+	vm.cfpSet(&vm.callFrames[0])
+	vm.bytecode = fn
+	vm.ipSet(&fn.Instructions[0])
+	vm.push(value.Nil)
+	vm.push(value.Ref(iter))
+	vm.localCount = 2
+	before := len(vm.stack)
+	vm.run()
+	vxAssert(vm.state != errorState, "next-across-growth/no-error")
+	got := vm.peek()
+	vxAssert(got.IsSmallInt() && int64(got.AsSmallInt()) == x, "next-across-growth/the-loop-variable-gets-the-value-next-returned")
+	if slots == 7 {
+		vxAssert(len(vm.stack) > before, "next-across-growth/the-scenario-reallocates")
+	}
 }
